@@ -1,6 +1,19 @@
 import Mhd.Model.PoolOps
+import Mhd.Model.PoolRzOps
+import Mhd.Model.NoSpaceConn
+import Mhd.Model.Framing
 import Driver.Common
 open Mhd.Pool Driver
+
+/-!
+  Engine `pool`.  Three sub-engines behind one line protocol:
+  * `model old` (default): `Mhd.Pool.step` — the ordinary build of memorypool.c;
+  * `model rz <red zone> <0|1>`: `Mhd.PoolRz.step` — both build variants (red zone 0 / ALIGN_SIZE) with
+    the user-poison map; state lines then carry `adr=` (run-length list of the addressable ranges) when
+    the red zone is not 0;
+  * `crinit` / `crfeed`: the traced composed run `Mhd.ArenaBound.runT` (C01's `Mhd.ConnRead` + which
+    refusal is decided when a request does not fit), against the `crinit`/`crfeed` lines of harness `h_mem`.
+-/
 
 /-- deterministic fill pattern shared with the C harness -/
 def pattern (seed len : Nat) : List UInt8 :=
@@ -24,7 +37,89 @@ def doOp (s : St) (o : Op) : St × List String :=
 
 def W64 : Nat := 2 ^ 64
 
-def stepLine (s : St) (ws : List String) : St × List String :=
+/-! ### red-zone model -/
+
+/-- run-length list of the addressable (not poisoned) ranges: `a-b,c-d` (half-open), `-` if none -/
+def adrRuns (m : List Bool) : String :=
+  let rec go (l : List Bool) (i : Nat) (start : Option Nat) (acc : List String) : List String :=
+    match l, start with
+    | [], none => acc
+    | [], some a => s!"{a}-{i}" :: acc
+    | true :: t, none => go t (i + 1) none acc
+    | true :: t, some a => go t (i + 1) none (s!"{a}-{i}" :: acc)
+    | false :: t, none => go t (i + 1) (some i) acc
+    | false :: t, some a => go t (i + 1) (some a) acc
+  let r := (go m 0 none []).reverse
+  if r.isEmpty then "-" else ",".intercalate r
+
+structure RzS where
+  v : Mhd.PoolRz.Var
+  s : Mhd.PoolRz.St
+
+def showStRz (z : RzS) (s : Mhd.PoolRz.St) : String :=
+  if z.v.rz = 0 then s!"pos={s.p.pos} end={s.p.end_}" else s!"pos={s.p.pos} end={s.p.end_} adr={adrRuns s.p.psn}"
+
+def showResRz (z : RzS) (s : Mhd.PoolRz.St) : Mhd.PoolRz.Res → String
+  | .block off len => s!"blk {off} {len} {showStRz z s}"
+  | .null => s!"null {showStRz z s}"
+  | .nullNeed n => s!"null need={n} {showStRz z s}"
+  | .unit => s!"ok {showStRz z s}"
+  | .badOp => "bad-op"
+  | .fault => "fault unpoison-out-of-arena"
+
+def doOpRz (z : RzS) (o : Op) : RzS × List String :=
+  let (s', r) := Mhd.PoolRz.step z.v z.s o
+  ({ z with s := s' }, [showResRz z s' r])
+
+def stepLineRz (z : RzS) (ws : List String) : RzS × List String :=
+  let s := z.s
+  match ws with
+  | ["create", n] => match n.toNat? with
+      | some k => if 0 < k ∧ k < 2^62 then
+          let s0 := Mhd.PoolRz.St.init (createSize k)
+          ({ z with s := s0 }, [s!"ok pos=0 end={createSize k} size={createSize k}"]) else (z, ["bad-op"])
+      | none => (z, ["bad-op"])
+  | ["alloc", n, f] => match n.toNat?, f.toNat? with
+      | some k, some fe => if k < W64 then doOpRz z (.alloc k (fe != 0)) else (z, ["bad-op"])
+      | _, _ => (z, ["bad-op"])
+  | ["try", n] => match n.toNat? with
+      | some k => if k < W64 then doOpRz z (.tryAlloc k) else (z, ["bad-op"])
+      | none => (z, ["bad-op"])
+  | ["realloc", i, n] => match optIdx i, n.toNat? with
+      | some oi, some k => if k < W64 then doOpRz z (.realloc oi k) else (z, ["bad-op"])
+      | _, _ => (z, ["bad-op"])
+  | ["dealloc", i] => match i.toNat? with
+      | some k => doOpRz z (.dealloc k)
+      | none => (z, ["bad-op"])
+  | ["reset", i, c, n] => match optIdx i, c.toNat?, n.toNat? with
+      | some oi, some cc, some k => doOpRz z (.reset oi cc k)
+      | _, _, _ => (z, ["bad-op"])
+  | ["fill", i, seed] => match i.toNat?, seed.toNat? with
+      | some k, some sd => match s.live[k]? with
+        | some b =>
+          if b.off + b.len ≤ s.p.mem.length then
+            ({ z with s := { s with p := { s.p with mem := writeAt s.p.mem b.off (pattern sd b.len) } } }, ["ok"])
+          else (z, ["fault fill-out-of-arena"])
+        | none => (z, ["bad-op"])
+      | _, _ => (z, ["bad-op"])
+  | ["read", i] => match i.toNat? with
+      | some k => match s.live[k]? with
+        | some b =>
+          if b.off + b.len ≤ s.p.mem.length then (z, [s!"data {hexOfBytes (readAt s.p.mem b.off b.len)}"])
+          else (z, ["fault read-out-of-arena"])
+        | none => (z, ["bad-op"])
+      | none => (z, ["bad-op"])
+  | ["free?"] => (z, [s!"free={Mhd.PoolRz.getFree z.v s.p}"])
+  | ["inplace?", i, n] => match i.toNat?, n.toNat? with
+      | some k, some _ => match s.live[k]? with
+        | some b => (z, [s!"inplace={Mhd.PoolRz.isResizableInplace z.v s.p (some b.off) b.len}"])
+        | none => (z, ["bad-op"])
+      | _, _ => (z, ["bad-op"])
+  | _ => (z, ["bad-op"])
+
+/-! ### ordinary model (`Mhd.Pool`) -/
+
+def stepLineOld (s : St) (ws : List String) : St × List String :=
   match ws with
   | ["create", n] => match n.toNat? with
       | some k => if 0 < k ∧ k < 2^62 then (St.init (createSize k), [s!"ok pos=0 end={createSize k} size={createSize k}"]) else (s, ["bad-op"])
@@ -67,4 +162,112 @@ def stepLine (s : St) (ws : List String) : St × List String :=
       | _, _ => (s, ["bad-op"])
   | _ => (s, ["bad-op"])
 
-def main : IO Unit := runEngine (St.init 0) stepLine
+/-! ### traced composed run (`Mhd.ArenaBound`): `crinit <pool_size> <increment> <level> [take pattern]`, `crfeed <hex>` -/
+
+/-- the fields of the request as C03's framing decision wants them -/
+def fieldsOf (buf : Mhd.Req.Bytes) (elems : List Mhd.Req.Elem) : List Mhd.Framing.Field :=
+  elems.filterMap fun e =>
+    if e.kind == Mhd.Gen.Http.kindHeader then
+      let sl (x : Mhd.Req.Slice) : List UInt8 := (buf.extract x.off (x.off + x.len)).toList
+      some ⟨sl e.key, (e.value.map sl).getD []⟩
+    else none
+
+/-- `MHD_IS_HTTP_VER_1_1_COMPAT` on the version string `HTTP/1.x` -/
+def http11Of (buf : Mhd.Req.Bytes) (version : Nat) : Bool :=
+  buf.getD (version + 5) 0 == 49 && buf.getD (version + 7) 0 != 48
+
+def cookieName : List UInt8 := [67, 111, 111, 107, 105, 101]
+
+/-- the decisions of `parse_connection_headers` (C03: `decideBody`) and `keepalive_possible`, the take
+    pattern of the scripted access handler (as in engine `mem`) -/
+def mkCfg (lvl : Int) (pat : List Nat) : Mhd.ConnRead.Cfg :=
+  { frame := fun buf rq =>
+      let fs := fieldsOf buf rq.elems
+      if (Mhd.Framing.lookup fs cookieName).isSome then .stop
+      else match Mhd.Framing.decideBody lvl (http11Of buf rq.version) fs with
+        | .none => .none
+        | .len n => .len n
+        | .chunked _ => .chunked
+        | .reject st => .reject st,
+    keepAlive := fun buf rq =>
+      let fs := fieldsOf buf rq.elems
+      let h11 := http11Of buf rq.version
+      let mustClose := match Mhd.Framing.decideBody lvl h11 fs with
+        | .chunked mc => mc
+        | _ => false
+      if mustClose then false
+      else if Mhd.Framing.lookupToken fs Mhd.Gen.Framing.hdrConnection Mhd.Gen.Framing.tokClose then false
+      else if !h11 then Mhd.Framing.lookupToken fs Mhd.Gen.Framing.hdrConnection Mhd.Gen.Framing.tokKeepAlive
+      else true,
+    take := fun k _ => if pat.isEmpty then 1000000000 else pat.getD (k % pat.length) 0 }
+
+/-- state class + the refusal: `ph=err code=<status>` (0 = closed without a reply; `ns?` must never
+    appear: the run is in `.error .noSpace` but no refusal was recorded) -/
+def showTR (t : Mhd.ArenaBound.TR) : String :=
+  match t.x.phase with
+  | .reqLine _ => "ph=line"
+  | .headers _ _ => "ph=hdrs"
+  | .headersDone _ _ => "ph=done"
+  | .body _ => "ph=body"
+  | .footers _ _ => "ph=foot"
+  | .reqDone _ _ _ => "ph=full"
+  | .error (.reply code) => s!"ph=err code={code} why=reply"
+  | .error .closed => "ph=err code=0 why=closed"
+  | .error .noSpace =>
+    match t.log with
+    | some (.status c) => s!"ph=err code={c} why=nospace"
+    | some .close => "ph=err code=0 why=nospace"
+    | none => "ph=err code=ns? why=nospace"
+  | .fault f => s!"ph=fault {repr f}"
+  | .refused n => s!"ph=refused {n}"
+
+def parsePat (s : String) : Option (List Nat) :=
+  (s.splitOn ",").mapM (·.toNat?)
+
+structure DS where
+  old : St
+  rz : Option RzS
+  tr : Mhd.ArenaBound.TR
+  pat : List Nat
+
+def stepCR (d : DS) (ws : List String) : Option (DS × List String) :=
+  let ini (ps inc lvl : String) (pt : List Nat) :=
+    match ps.toNat?, inc.toNat?, lvl.toInt? with
+    | some p, some i, some l =>
+      if 64 ≤ p ∧ p < 2 ^ 40 ∧ i < 2 ^ 40 ∧ -8 ≤ l ∧ l ≤ 8 then
+        let t0 := Mhd.ArenaBound.initT (createSize p) p i l
+        some ({ d with tr := t0, pat := pt }, [s!"ok {showTR t0}"])
+      else some (d, ["bad-op"])
+    | _, _, _ => some (d, ["bad-op"])
+  match ws with
+  | ["crinit", ps, inc, lvl] => ini ps inc lvl []
+  | ["crinit", ps, inc, lvl, pt] =>
+    match parsePat pt with
+    | some l => ini ps inc lvl l
+    | none => some (d, ["bad-op"])
+  | ["crfeed", hex] =>
+    match bytesOfHex hex with
+    | some bs =>
+      let t1 := Mhd.ArenaBound.feedT (mkCfg d.tr.x.lvl d.pat) d.tr bs
+      some ({ d with tr := t1 }, [showTR t1])
+    | none => some (d, ["bad-op"])
+  | _ => none
+
+def stepLine (d : DS) (ws : List String) : DS × List String :=
+  match ws with
+  | ["model", "old"] => ({ d with rz := none }, ["ok model"])
+  | ["model", "rz", r, c] =>
+    match r.toNat?, c.toNat? with
+    | some rz, some chk =>
+      ({ d with rz := some { v := ⟨rz, chk != 0⟩, s := Mhd.PoolRz.St.init 0 } }, ["ok model"])
+    | _, _ => (d, ["bad-op"])
+  | _ =>
+    match stepCR d ws with
+    | some r => r
+    | none =>
+      match d.rz with
+      | none => let (s, out) := stepLineOld d.old ws; ({ d with old := s }, out)
+      | some z => let (z', out) := stepLineRz z ws; ({ d with rz := some z' }, out)
+
+def main : IO Unit :=
+  runEngine ({ old := St.init 0, rz := none, tr := Mhd.ArenaBound.initT 64 64 16 0, pat := [] } : DS) stepLine
